@@ -486,10 +486,15 @@ static void more_classes(std::map<int, Cls>& m) {
       NF_Triplet arcs; for (auto& a : r[4].l) arcs.add((int) a[0].i(), (int) a[1].i(), a[2].d());
       return DbGraphO::createFromSamples((int) r[0].i(), ELoadBy::COLUMN, tab, arcs, {"x1", "x2", "z1"}, {"x1", "x2", "z1"}); },
                             [](const std::string& f) -> ASerializable* { return DbGraphO::createFromNF(f, false); });
-  // 22 AnamEmpirical: (ndisc sigma2e dilution gaussian data)
+  // 22 AnamEmpirical: (ndisc sigma2e dilution gaussian data)   -- modelled: G = state, X = printed text
   m[22] = generic<AnamEmpirical>([](const Sx& r) -> ASerializable* {
       AnamEmpirical* a = new AnamEmpirical((int) r[0].i(), r[1].d(TEST), r[2].b(), r[3].b()); a->fitFromArray(VD(r[4])); return a; },
                                  [](const std::string& f) -> ASerializable* { return AnamEmpirical::createFromNF(f, false); });
+  m[22].G = [](const ASerializable* o) { auto a = dynamic_cast<const AnamEmpirical*>(o);
+    return "(" + sx_d(a->getAzmin()) + " " + sx_d(a->getAzmax()) + " " + sx_d(a->getAymin()) + " " + sx_d(a->getAymax()) + " " +
+           sx_d(a->getPzmin()) + " " + sx_d(a->getPzmax()) + " " + sx_d(a->getPymin()) + " " + sx_d(a->getPymax()) + " " +
+           sx_d(a->getMean()) + " " + sx_d(a->getVariance()) + " " + sx_d(a->getSigma2e()) + " " + sx_vdd(a->getZDisc()) + " " + sx_vdd(a->getYDisc()) + " " +
+           sx_b(a->isFlagDilution()) + " " + sx_b(a->isFlagGaussian()) + ")"; };
   // 23 AnamDiscreteDD: (mu scoef zcuts stats z2f f2z)   -- filled through the setters (the fit is another matter)
   m[23] = generic<AnamDiscreteDD>([](const Sx& r) -> ASerializable* {
       AnamDiscreteDD* a = AnamDiscreteDD::create(r[0].d(), r[1].d()); VectorDouble zc = VD(r[2]); a->setZCut(zc);
@@ -502,9 +507,17 @@ static void more_classes(std::map<int, Cls>& m) {
   m[24] = generic<AnamDiscreteIR>([](const Sx& r) -> ASerializable* {
       AnamDiscreteIR* a = AnamDiscreteIR::create(r[0].d()); a->setZCut(VD(r[1])); a->fitFromArray(VD(r[2])); return a; },
                                   [](const std::string& f) -> ASerializable* { return AnamDiscreteIR::createFromNF(f, false); });
-  // 25 MeshETurbo: (nx dx x0 angles polarized)
-  m[25] = generic<MeshETurbo>([](const Sx& r) -> ASerializable* { space((int) r[0].size()); return MeshETurbo::create(VI(r[0]), VD(r[1]), VD(r[2]), VD(r[3]), r[4].b(), false); },
+  // 25 MeshETurbo: (nx dx x0 angles polarized sel)   -- modelled: G = state; sel (optional) masks some grid nodes
+  m[25] = generic<MeshETurbo>([](const Sx& r) -> ASerializable* { space((int) r[0].size());
+      if (r[5].l.empty()) return MeshETurbo::create(VI(r[0]), VD(r[1]), VD(r[2]), VD(r[3]), r[4].b(), false);
+      DbGrid* g = DbGrid::create(VI(r[0]), VD(r[1]), VD(r[2]), VD(r[3]));
+      g->addColumns(VD(r[5]), "sel", ELoc::SEL, 0);
+      MeshETurbo* t = MeshETurbo::createFromGrid(g, r[4].b(), false, (int) r[6].i());
+      delete g; return t; },
                               [](const std::string& f) -> ASerializable* { return MeshETurbo::createFromNF(f, false); });
+  m[25].G = [](const ASerializable* o) { auto t = dynamic_cast<const MeshETurbo*>(o); const Grid& g = t->getGrid();
+    return "(" + sx_vi(g.getNXs()) + " " + sx_vdd(g.getDXs()) + " " + sx_vdd(g.getX0s()) + " " + sx_vdd(g.getRotMat()) + " " + sx_b(t->_isPolarized) + " " +
+           sx_i(t->getMeshIndirect().getMode()) + " " + sx_vi(t->getMeshIndirect().getRelRanks()) + " " + sx_vi(t->getGridIndirect().getRelRanks()) + ")"; };
   // 26 MeshEStandard: (ndim apices(row-major) meshes(row-major, ndim+1 per mesh))
   m[26] = generic<MeshEStandard>([](const Sx& r) -> ASerializable* {
       int ndim = (int) r[0].i(); VectorDouble ap = VD(r[1]); VectorInt me = VI(r[2]);
